@@ -253,6 +253,27 @@ def _format_chained_binary(
                 if not operator_str.endswith(" "):
                     operator_str = operator_str.rstrip() + " "
                 rebuilt += f"{op_sep}{operator_str}{right_str}"
+        elif right_newline:
+            # Operator at the end of the line, operand on the next one (a comment
+            # behind the operator forces this): keep the break, or the operand
+            # would be printed behind the comment.
+            right_indent = (
+                indent
+                if _should_absorb_chainable_operand(operand_slot.expr)
+                else indent + 2
+            )
+            right_str = _rebuild_operand(
+                operand_slot.expr,
+                indent=right_indent,
+                inline=True,
+                extra_before=operand_slot.extra_before,
+                extra_after=operand_slot.extra_after,
+            )
+            right_str = _ensure_indent(right_str, right_indent)
+            if not operator_str.startswith("\n"):
+                operator_str = " " + operator_str.lstrip()
+            right_sep = "\n" * right_gap_lines
+            rebuilt += f"{operator_str}{right_sep}{right_str}"
         else:
             right_str = _rebuild_operand(
                 operand_slot.expr,
